@@ -147,7 +147,15 @@ pub fn expr_into_reward_account(
     let address = expr_into_address(expr, network)?;
 
     let hash_bytes = match address {
-        pallas::ledger::addresses::Address::Shelley(x) => x.delegation().to_vec(),
+        // the account behind a base address is its stake credential under a header byte of its
+        // own, not the bare credential
+        pallas::ledger::addresses::Address::Shelley(x) => {
+            pallas::ledger::addresses::StakeAddress::try_from(x)
+                .map_err(|_| {
+                    Error::FormatError("address has no stake credential to withdraw from".to_string())
+                })?
+                .to_vec()
+        }
         pallas::ledger::addresses::Address::Stake(x) => x.to_vec(),
         _ => {
             return Err(Error::FormatError(
